@@ -168,22 +168,14 @@ def install(project, evolutions=None, migrations=None, extra_installed=()):
             for name, text in migs:
                 with open(os.path.join(mpath, name + '.py'), 'w') as fp:
                     fp.write(text)
-            # the migrations package must be importable for real
-            if root not in sys.path:
-                sys.path.insert(0, root)
-            open(os.path.join(path, '__init__.py'), 'a').close()
+            # imported for real through the (synthetic) parent package's
+            # __path__, so that Django's loader can list and reload it
+            for name in list(sys.modules):
+                if name.startswith(label + '.migrations'):
+                    del sys.modules[name]
             importlib.invalidate_caches()
-            mig_pkg = _mod(label + '.migrations', mpath, True)
-            mig_pkg.__spec__ = importlib.machinery.PathFinder.find_spec(
-                'migrations', [path]) or mig_pkg.__spec__
-            for name, text in migs:
-                full = '%s.migrations.%s' % (label, name)
-                sm = types.ModuleType(full)
-                sm.__file__ = os.path.join(mpath, name + '.py')
-                exec(compile(text, sm.__file__, 'exec'), sm.__dict__)
-                sys.modules[full] = sm
-                setattr(mig_pkg, name, sm)
-            pkg.migrations = mig_pkg
+            sys.dont_write_bytecode = True
+            importlib.import_module(label + '.migrations')
         cfg = AppConfig(label, pkg)
         cfg.label = label
         cfgs.append(cfg)
